@@ -82,6 +82,7 @@ def handle : Handler
   | "alias_cdiv_q_ui", args => runU 1 args
   | "alias_mul_2exp", args => runB mul_2exp args
   | "alias_tdiv_q_2exp", args => runB tdiv_q_2exp args
+  | "alias_tdiv_r_2exp", args => runB tdiv_r_2exp args
   | "alias_cdiv_q_2exp", args => runB cdiv_q_2exp args
   | "alias_fdiv_q_2exp", args => runB fdiv_q_2exp args
   | _, _ => none
